@@ -128,42 +128,73 @@ Lemma vars_eqs s1 s2 : eqs s1 s2 -> vars s1 = vars s2.
 Proof. intros ((A & _) & _). exact A. Qed.
 
 (* ------------------------------------------------------------------ *)
+(* no operation changes the kind of a constraint or allocates one       *)
+(* ------------------------------------------------------------------ *)
+Definition kp (s s' : store) : Prop :=
+  length (constrs s') = length (constrs s) /\
+  forall c, k_elim (constr_of s' c) = k_elim (constr_of s c).
+
+Lemma kp_refl s : kp s s.
+Proof. split; auto. Qed.
+Lemma kp_trans s1 s2 s3 : kp s1 s2 -> kp s2 s3 -> kp s1 s3.
+Proof. intros (A & B) (A' & B'). split; [congruence|]. intros c. rewrite B'. apply B. Qed.
+Lemma kp_constrs s s' : constrs s' = constrs s -> kp s s'.
+Proof. intros E. unfold kp, constr_of. rewrite E. auto. Qed.
+Lemma kp_set_constr s c k : k_elim k = k_elim (constr_of s c) -> kp s (set_constr s c k).
+Proof.
+  intros E. split; [cbn; apply upd_length|]. intros c'. unfold constr_of, set_constr. cbn.
+  rewrite nth_upd_gen. destruct (Nat.eqb c c' && Nat.ltb c (length (constrs s)))%bool eqn:Q; [|reflexivity].
+  apply andb_prop in Q. destruct Q as (Q & _). apply Nat.eqb_eq in Q. subst c'. exact E.
+Qed.
+
+(* ------------------------------------------------------------------ *)
 (* lockstep                                                             *)
 (* ------------------------------------------------------------------ *)
-Definition CR {A} (r1 r2 : mres A) : Prop :=
+Definition CR {A} (s1 s2 : store) (r1 r2 : mres A) : Prop :=
   match r1, r2 with
-  | MOk a s1, MOk b s2 => a = b /\ eqs s1 s2
+  | MOk a t1, MOk b t2 => a = b /\ eqs t1 t2 /\ kp s1 t1 /\ kp s2 t2
   | MEr e1 _, MEr e2 _ => e1 = e2
   | _, _ => False
   end.
 
-Definition cong {A} (m : M A) : Prop := forall s1 s2, eqs s1 s2 -> CR (m s1) (m s2).
+Definition cong {A} (m : M A) : Prop := forall s1 s2, eqs s1 s2 -> CR s1 s2 (m s1) (m s2).
+
+Lemma CR_start {A} s1 s2 t1 t2 (r1 r2 : mres A) : kp s1 t1 -> kp s2 t2 -> CR t1 t2 r1 r2 -> CR s1 s2 r1 r2.
+Proof.
+  intros K1 K2. unfold CR. destruct r1, r2; auto. intros (A1 & A2 & A3 & A4).
+  repeat split; auto; try apply A2; eapply kp_trans; eauto.
+Qed.
+
+Lemma CR_bind {A B} s1 s2 (m : M A) (k : A -> M B) : CR s1 s2 (m s1) (m s2) ->
+  (forall a t1 t2, eqs t1 t2 -> kp s1 t1 -> kp s2 t2 -> CR t1 t2 (k a t1) (k a t2)) ->
+  CR s1 s2 (bindM m k s1) (bindM m k s2).
+Proof.
+  intros Rm Rk. unfold bindM. unfold CR in Rm.
+  destruct (m s1) as [a s1'|e1 s1'], (m s2) as [b s2'|e2 s2']; try contradiction.
+  - destruct Rm as (-> & E' & K1 & K2). eapply CR_start; [exact K1|exact K2|]. apply Rk; auto.
+  - exact Rm.
+Qed.
 
 Lemma cong_ret {A} (a : A) : cong (ret a).
-Proof. intros s1 s2 E. cbn. auto. Qed.
+Proof. intros s1 s2 E. cbn. auto using kp_refl. Qed.
 
 Lemma cong_fail {A} e : cong (@fail A e).
 Proof. intros s1 s2 E. reflexivity. Qed.
 
 Lemma cong_bind {A B} (m : M A) (k : A -> M B) : cong m -> (forall a, cong (k a)) -> cong (bindM m k).
-Proof.
-  intros Rm Rk s1 s2 E. unfold bindM. specialize (Rm s1 s2 E). unfold CR in Rm.
-  destruct (m s1) as [a s1'|e1 s1'], (m s2) as [b s2'|e2 s2']; try contradiction.
-  - destruct Rm as (-> & E'). apply Rk; auto.
-  - exact Rm.
-Qed.
+Proof. intros Rm Rk s1 s2 E. apply CR_bind; [apply Rm; exact E|]. intros a t1 t2 E' _ _. apply Rk. exact E'. Qed.
 
 Lemma cong_gets {A} (g : store -> A) : (forall s1 s2, eqs s1 s2 -> g s1 = g s2) -> cong (gets g).
-Proof. intros G s1 s2 E. cbn. auto. Qed.
+Proof. intros G s1 s2 E. cbn. auto using kp_refl. Qed.
 
 Lemma cong_modify (g : store -> store) :
-  (forall s1 s2, eqs s1 s2 -> eqs (g s1) (g s2)) -> cong (modify g).
-Proof. intros G s1 s2 E. cbn. auto. Qed.
+  (forall s1 s2, eqs s1 s2 -> eqs (g s1) (g s2)) -> (forall s, constrs (g s) = constrs s) -> cong (modify g).
+Proof. intros G K s1 s2 E. cbn. auto using kp_constrs. Qed.
 
 Lemma cong_lift {A} (r : store -> res A) : (forall s1 s2, eqs s1 s2 -> r s1 = r s2) -> cong (lift r).
 Proof.
   intros G s1 s2 E. unfold lift. rewrite <- (G s1 s2 E).
-  destruct (r s1); cbn; auto.
+  destruct (r s1); cbn; auto using kp_refl.
 Qed.
 
 Lemma cong_forM {A} (f : A -> M unit) : (forall x, cong (f x)) -> forall l, cong (forM l f).
@@ -174,21 +205,32 @@ Qed.
 
 Lemma cong_upd_cell v g : cong (upd_cell v g).
 Proof.
-  unfold upd_cell. apply cong_modify.
+  unfold upd_cell. apply cong_modify; [|reflexivity].
   intros s1 s2 E. rewrite (cell_of_eqs s1 s2 E v).
   apply (eqs_lift s1 s2); auto. apply eqr_set_cell. apply E.
 Qed.
 
-Lemma cong_upd_constr c h : (forall k1 k2, creq k1 k2 -> creq (h k1) (h k2)) -> cong (upd_constr c h).
+(* contextual: updating a record *)
+Lemma CR_upd_constr s1 s2 c h : eqs s1 s2 ->
+  creq (h (constr_of s1 c)) (h (constr_of s2 c)) ->
+  k_elim (h (constr_of s1 c)) = k_elim (constr_of s1 c) ->
+  k_elim (h (constr_of s2 c)) = k_elim (constr_of s2 c) ->
+  CR s1 s2 (upd_constr c h s1) (upd_constr c h s2).
 Proof.
-  intros Hh. unfold upd_constr. apply cong_modify. intros s1 s2 E.
-  apply (eqs_lift s1 s2); auto. apply eqr_set_constr; [apply E|]. apply Hh. apply E.
+  intros E Hh K1 K2. unfold upd_constr, modify. cbn. split; [reflexivity|].
+  split; [|split; apply kp_set_constr; assumption].
+  apply (eqs_lift s1 s2); auto. apply eqr_set_constr; [apply E|exact Hh].
 Qed.
+
+Lemma cong_upd_constr c h : (forall k1 k2, creq k1 k2 -> creq (h k1) (h k2)) ->
+  (forall k, k_elim (h k) = k_elim k) -> cong (upd_constr c h).
+Proof. intros Hh Hk s1 s2 E. apply CR_upd_constr; auto. apply Hh. apply E. Qed.
 
 Lemma cong_fresh w : cong (fresh w).
 Proof.
   intros s1 s2 ((Ev & Ec & Ek & Ed) & Es). unfold fresh, alloc_var. cbn.
-  rewrite <- Ev, <- Ec. split; [reflexivity|]. split; [|exact Es].
+  rewrite <- Ev, <- Ec. split; [reflexivity|]. split; [|split; apply kp_constrs; reflexivity].
+  split; [|exact Es].
   unfold eqr. cbn. split; [|split; [|split]]; auto.
 Qed.
 
@@ -203,10 +245,14 @@ Lemma cong_next_choice : cong next_choice.
 Proof.
   intros s1 s2 (Er & Es). unfold next_choice. rewrite <- Es.
   destruct (sched s1) as [|r rest] eqn:Q; cbn.
-  - split; [reflexivity|]. split; auto. congruence.
-  - split; [reflexivity|]. destruct Er as (A & B & C & D). split; [|reflexivity].
+  - split; [reflexivity|]. split; [split; auto; congruence|]. split; apply kp_refl.
+  - split; [reflexivity|]. destruct Er as (A & B & C & D).
+    split; [|split; apply kp_constrs; reflexivity]. split; [|reflexivity].
     unfold eqr. cbn. split; [|split; [|split]]; auto.
 Qed.
+
+Lemma bind_gets {A B} (g : store -> A) (k : A -> M B) s : bindM (gets g) k s = k (g s) s.
+Proof. reflexivity. Qed.
 
 Section Q.
 Variable H : hier.
@@ -226,6 +272,14 @@ Ltac eqs_rd :=
                   first [ apply eqr_set_cset; apply E
                         | apply eqr_set_cell; apply E ] ] ].
 
+(* minimize, for a constraint whose record is the same in both stores *)
+Definition CRm {A} (c : nat) (s1 s2 : store) (r1 r2 : mres A) : Prop :=
+  match r1, r2 with
+  | MOk a t1, MOk b t2 => a = b /\ eqs t1 t2 /\ kp s1 t1 /\ kp s2 t2 /\ constr_of t1 c = constr_of t2 c
+  | MEr e1 _, MEr e2 _ => e1 = e2
+  | _, _ => False
+  end.
+
 Definition congs (f : nat) : Prop :=
   (forall sub skb skw a b, cong (unify H f sub skb skw a b)) /\
   (forall v t, cong (bind H f v t)) /\
@@ -233,7 +287,9 @@ Definition congs (f : nat) : Prop :=
   (forall v o, cong (below H f v o)) /\
   (forall pl t, cong (fix_ty H f pl t)) /\
   (forall v, cong (check_constraints H f v)) /\
-  (forall c, cong (fulfill H f c)).
+  (forall c, cong (fulfill H f c)) /\
+  (forall c s1 s2, eqs s1 s2 -> constr_of s1 c = constr_of s2 c ->
+     CRm c s1 s2 (minimize H f c s1) (minimize H f c s2)).
 
 Ltac cg_step :=
   first
@@ -245,7 +301,7 @@ Ltac cg_step :=
     | apply cong_upd_cell
     | apply cong_gets; eqs_rd
     | apply cong_lift; eqs_rd
-    | apply cong_modify; eqs_rd
+    | apply cong_modify; [eqs_rd|reflexivity]
     | apply cong_bind; [|intro]
     | apply cong_forM; intro
     | match goal with
@@ -254,7 +310,7 @@ Ltac cg_step :=
       end ].
 
 Lemma congs_0 : congs 0.
-Proof. repeat split; intros; apply cong_fail. Qed.
+Proof. repeat split; intros; try apply cong_fail. Qed.
 
 Lemma fold_union_eqs s1 s2 : eqs s1 s2 -> forall vs base,
   fold_right (fun w acc => union (cset_of s1 (c_cs (cell_of s1 w))) acc) base vs =
@@ -263,5 +319,48 @@ Proof.
   intros E. induction vs as [|w vs IH]; intros base; cbn [fold_right]; [reflexivity|].
   rewrite IH. eqs_rw E. reflexivity.
 Qed.
+
+Lemma congs_step f : congs f -> congs (S f).
+Proof.
+  intros (IHu & IHb & IHa & IHl & IHx & IHc & IHf & IHm).
+  assert (Hb : forall v t, cong (bind H (S f) v t)).
+  { intros v t. rewrite bind_S. unfold set_wild, set_bound, set_cs.
+    repeat cg_step; auto.
+    apply cong_modify; [|reflexivity]. intros s1 s2 E. cbv zeta. eqs_rw E.
+    rewrite (fold_union_eqs s1 s2 E).
+    apply (eqs_lift _ _ _ _ E); [|reflexivity|reflexivity]. apply eqr_set_cset. apply E. }
+  assert (Ha : forall v o, cong (above H (S f) v o)).
+  { intros v o. rewrite above_S. unfold set_wild, set_lower. repeat cg_step; auto. }
+  assert (Hl : forall v o, cong (below H (S f) v o)).
+  { intros v o. rewrite below_S. unfold set_wild, set_upper. repeat cg_step; auto. }
+  assert (Hx : forall pl t, cong (fix_ty H (S f) pl t)).
+  { intros pl t. rewrite fix_ty_S. repeat cg_step; auto.
+    generalize (variance H o) as vs.
+    induction args as [|p ps IHp]; intros [|b0 vs]; repeat cg_step; auto. }
+  assert (Hu : forall sub skb skw a b, cong (unify H (S f) sub skb skw a b)).
+  { intros sub skb skw a b. rewrite unify_S. repeat cg_step; auto.
+    generalize (variance H o) as vs. revert args0.
+    induction args as [|x xs IHxs]; intros [|y ys] [|b0 vs]; repeat cg_step; auto. }
+  assert (Hc : forall v, cong (check_constraints H (S f) v)).
+  { intros v. rewrite check_constraints_S. repeat cg_step; auto. }
+  assert (Hm : forall c s1 s2, eqs s1 s2 -> constr_of s1 c = constr_of s2 c ->
+     CRm c s1 s2 (minimize H (S f) c s1) (minimize H (S f) c s2)).
+  { intros c s1 s2 E Eq. rewrite minimize_S. rewrite !bind_gets. rewrite <- Eq.
+    set (k := constr_of s1 c).
+    match goal with |- CRm _ _ _ (bindM ?L ?K s1) _ => set (LOOP := L); set (REST := K) end.
+    assert (CL : cong LOOP).
+    { subst LOOP. generalize (@nil tyv) as acc. generalize (k_alts k) as objs.
+      induction objs as [|obj rest IHo]; intros acc; [apply cong_ret|].
+      apply cong_bind.
+      - clear IHo. generalize true as add. generalize (@nil tyv) as pre.
+        induction acc as [|mi post IHi]; intros pre add; repeat cg_step; auto.
+      - intros [mins' add]. destruct add; repeat cg_step; auto. }
+    unfold bindM. pose proof (CL s1 s2 E) as X. unfold CR in X.
+    destruct (LOOP s1) as [mins t1|e1 t1], (LOOP s2) as [mins2 t2|e2 t2]; try contradiction; [|exact X].
+    destruct X as (<- & E' & K1 & K2). subst REST. cbv beta. rewrite !bind_gets.
+    unfold upd_constr, modify. cbn [CRm].
+    admit. }
+  repeat split; auto.
+Admitted.
 
 End Q.
